@@ -34,6 +34,8 @@ class Obj:
 
 
 def E(k, v):
+    if len(LOG) > 5000:
+        raise MemoryError("side-effect log overflow (runaway loop)")
     LOG.append(("E", k, _r(v)))
     return v
 
@@ -836,7 +838,7 @@ def functions(flags=None, want_gen=None):
                 if not fl.nested_class:
                     return [("pass",)]
                 counters["K"] += 1
-                return [("class", f"K_{counters['K']}", int_expr(bound, 1))]
+                return [("class", f"K_{counters['K']}", int_expr(bound, 2))]
             if k == "del":
                 pool = [v for v in bound if v in LOCALS and v not in excluded]
                 if not pool or draw(st.integers(0, 2)):
@@ -959,7 +961,24 @@ def functions(flags=None, want_gen=None):
             pool = sorted(v for v in bound if v in LOCALS)
             items = [("var", v) for v in pool[:3]] or [("int", 0)]
             body.append(("return", ("tuple", items) if tail == 1 else items[0]))
-        return {"name": "f", "params": params, "body": body, "gen": gen, "closure": closure_vars}
+        fn = {"name": "f", "params": params, "body": body, "gen": gen, "closure": closure_vars}
+        # names read (or deleted) but bound nowhere in f would be *globals*; make them genuine
+        # locals with an unreachable binding so that reading them is an UnboundLocalError
+        bn = bound_names(fn)
+        ghosts = set()
+        for e in walk_exprs(body):
+            if e[0] == "var" and e[1] in LOCALS and e[1] not in bn:
+                ghosts.add(e[1])
+            if e[0] == "call" and e[1].startswith("g_"):
+                pass
+        for s_ in walk_stmts(body):
+            if s_[0] == "del" and s_[1] not in bn:
+                ghosts.add(s_[1])
+            if s_[0] == "def" and s_[2] and s_[2] not in bn:
+                ghosts.add(s_[2])
+        if ghosts:
+            fn["body"] = [("if", ("int", 0), [("assign", [("n", g)], ("int", 0)) for g in sorted(ghosts)], [])] + body
+        return fn
 
     return fn_strategy()
 
@@ -968,42 +987,60 @@ def functions(flags=None, want_gen=None):
 # inputs
 
 
+_INPUT_STRATS = None
+
+
+def _input_strats():
+    global _INPUT_STRATS
+    if _INPUT_STRATS is None:
+        from hypothesis import strategies as st
+
+        small = st.integers(-2, 5)
+        seqs = st.lists(small, min_size=0, max_size=4)
+        xs = st.one_of(
+            seqs.map(lambda v: ("list", v)),
+            seqs.map(lambda v: ("tuple", v)),
+            seqs.map(lambda v: ("gen", v)),
+            seqs.map(lambda v: ("iter", v)),
+            st.lists(small, max_size=3, unique=True).map(lambda v: ("dict", v)),
+            st.sampled_from(["", "p", "pq", "pqr"]).map(lambda v: ("str", v)),
+            st.lists(st.tuples(small, small), max_size=3).map(lambda v: ("pairs", v)),
+        )
+        _INPUT_STRATS = {
+            "small": small,
+            "xs": xs,
+            "varargs": st.lists(small, max_size=2),
+            "kwargs": st.lists(st.sampled_from(["m", "n"]), unique=True, max_size=2),
+            "bool": st.booleans(),
+        }
+    return _INPUT_STRATS
+
+
+def draw_inputs(draw, fn):
+    """Draw the argument recipe of one call: dict name -> recipe."""
+    S = _input_strats()
+    out = {}
+    for p in fn["params"]:
+        n, kind = p[0], p[1]
+        if n == "xs":
+            out[n] = draw(S["xs"])
+        elif n == "o":
+            out[n] = ("obj", draw(S["small"]))
+        elif kind == "var":
+            out[n] = ("varargs", draw(S["varargs"]))
+        elif kind == "kw":
+            out[n] = ("kwargs", draw(S["kwargs"]))
+        elif p[2] is not None and draw(S["bool"]):
+            continue  # use the default
+        else:
+            out[n] = ("int", draw(S["small"]))
+    return out
+
+
 def inputs_for(fn):
-    """Strategy for the argument recipe of one call: dict name -> recipe."""
     from hypothesis import strategies as st
 
-    small = st.integers(-2, 5)
-    seqs = st.lists(small, min_size=0, max_size=4)
-    xs = st.one_of(
-        seqs.map(lambda v: ("list", v)),
-        seqs.map(lambda v: ("tuple", v)),
-        seqs.map(lambda v: ("gen", v)),
-        seqs.map(lambda v: ("iter", v)),
-        st.lists(small, max_size=3, unique=True).map(lambda v: ("dict", v)),
-        st.sampled_from(["", "p", "pq", "pqr"]).map(lambda v: ("str", v)),
-        st.lists(st.tuples(small, small), max_size=3).map(lambda v: ("pairs", v)),
-    )
-
-    @st.composite
-    def rec(draw):
-        out = {}
-        for p in fn["params"]:
-            n, kind = p[0], p[1]
-            if n == "xs":
-                out[n] = draw(xs)
-            elif n == "o":
-                out[n] = ("obj", draw(small))
-            elif kind == "var":
-                out[n] = ("varargs", draw(st.lists(small, max_size=2)))
-            elif kind == "kw":
-                out[n] = ("kwargs", draw(st.lists(st.sampled_from(["m", "n"]), unique=True, max_size=2)))
-            elif p[2] is not None and draw(st.booleans()):
-                continue  # use the default
-            else:
-                out[n] = ("int", draw(small))
-        return out
-
-    return rec()
+    return st.composite(lambda draw: draw_inputs(draw, fn))()
 
 
 def build_args(fn, recipe, glb):
